@@ -700,8 +700,12 @@ def rule_token_table(rep: Report, rid="C16.trim", rid_col="C04.col") -> None:
                 "EOF": [(line, False)],
             }.get(kind)
             if exp_guard is not None:
-                rep.eq(rid, f"match_{kind} tests the left-trimmed line" if kind != "EOF" else "match_EOF tests for the missing line",
-                       [(fmt(c, I), p) for c, p in exp_guard], [(fmt(c, I), p) for c, p in gs], **kw)
+                okg = gs == exp_guard
+                if kind == "Empty" and len(gs) == 1:
+                    from .line_rules import empty_forms
+                    okg = okg or any(nf.norm_guard(f_, True) == gs[0] for f_ in empty_forms(trimmed))
+                rep.ob(rid, f"match_{kind} tests the left-trimmed line" if kind != "EOF" else "match_EOF tests for the missing line", okg,
+                       expected=[(fmt(c, I), p) for c, p in exp_guard], found=[(fmt(c, I), p) for c, p in gs], **kw)
             rep.eq(rid, f"match_{kind} reports kind {kind}", const(kind), a.get("matched_type"), **kw)
             exp_indent = const(0) if kind in ("Comment", "Empty") else None
             rep.ob(rid_col, f"match_{kind}: column is " + ("1 (indent 0)" if exp_indent else "the line's indent + 1 (default indent)"),
